@@ -191,24 +191,40 @@ def feedPeer (env : Env) (net : Net) (addr pid : Nat) (read : Option Bool → Op
       | .error e => .error e
       | .ok ps => .ok ({ net with peers := ps }, .unit, liftOut addr pid o)
 
-/-- the part of `feed_impl` for an address without a peer: stateless parse (token hint `None`) -/
-def feedUnknown (net : Net) (addr : Nat) (read : Option Bool → Option Packet) : Res :=
+/-- the part of `feed_impl` for an address without a peer, or whose peer the application has not
+yet accepted (`pending`): stateless parse (token hint `None`).  A connect request creates a peer on
+an accepting endpoint; a retransmitted one (`pending`) is dropped. -/
+def feedUnknown (net : Net) (addr : Nat) (pending : Bool) (read : Option Bool → Option Packet) : Res :=
   match read none with
   | none => .ok (net, .unit, { warns := [(addr, .connless addr .read)] })
   | some (.connless d) => .ok (net, .unit, { events := [(addr, .connless addr none d)] })
   | some (.control _ token .connect) =>
-    if net.acceptConnections then
+    if pending then .ok (net, .unit, {})
+    else if net.acceptConnections then
       match newPeer net addr token.isSome with
       | .error e => .error e
       | .ok (net1, pid) => .ok (net1, .unit, { events := [(addr, .connect pid)] })
     else .ok (net, .unit, { warns := [(addr, .connless addr .unexpected)] })
   | some _ => .ok (net, .unit, { warns := [(addr, .connless addr .unexpected)] })
 
-/-- `Net::feed` -/
+/-- `Net::feed`: a datagram goes to the connection of the peer at its source address, unless that
+peer is still waiting for the application's `accept` / `reject` (its connection is `Unconnected`) -/
 def feed (env : Env) (net : Net) (addr : Nat) (read : Option Bool → Option Packet) : Res :=
   match pidFromAddr net.peers addr with
+  | some pid =>
+    match lookup net.peers pid with
+    | none => .error (.panic "invalid pid")
+    | some p =>
+      if p.conn.state = .unconnected then feedUnknown net addr true read
+      else feedPeer env net addr pid read
+  | none => feedUnknown net addr false read
+
+/-- `Net::feed` before the repair of D22 (every datagram of a known address went to its connection,
+also while the peer was pending acceptance); kept for the witness theorem only -/
+def feedLegacy (env : Env) (net : Net) (addr : Nat) (read : Option Bool → Option Packet) : Res :=
+  match pidFromAddr net.peers addr with
   | some pid => feedPeer env net addr pid read
-  | none => feedUnknown net addr read
+  | none => feedUnknown net addr false read
 
 /-- `Net::connect` -/
 def connect (env : Env) (net : Net) (addr : Nat) : Res :=
